@@ -528,8 +528,8 @@ func Corpus(c *common.Ctx, maxDepth int, emit func(src string)) {
 	seen := map[string]bool{}
 	for _, j := range jobs(c) {
 		for _, sp := range j.specs() {
-			if len(sp.Ws) > maxDepth {
-				continue
+			if len(sp.Ws) > maxDepth || sp.Fam == "stray" {
+				continue // the corpus stays the set (and the numbering) C14 was built on
 			}
 			pr, err := build(sp)
 			if err != nil || seen[pr.src] {
